@@ -405,6 +405,9 @@ def run(run: Run) -> int:
             cases.append(twin)
     for i in range(0, n, 5000):
         run_cases(run, pt, orc, tl, cases[i:i + 5000], "neutron_scattering")
+    # replay consistency: the first cases once more at the end of the run – a result must not depend on
+    # what was computed in between (stale or poisoned state)
+    run_cases(run, pt, orc, tl, FIXED_CASES + cases[:300], "neutron_scattering", tag="again")
     run.exhaustive = False
     return run.finish(RULE, assumptions=[
         "floating-point rounding: Float model and real code compared at 1e-9 (incoherent terms: absolute 1e-12·σ_s on σ_i, DESIGN 4.5); theorems are about the ℝ interpretation",
